@@ -44,6 +44,12 @@ def Container.WF (c : Container) : Prop := c.key < 65536 ∧ c.store.WF
 def Bitmap.WF (b : Bitmap) : Prop :=
   (b.map Container.key).Pairwise (· < ·) ∧ ∀ c ∈ b, Container.WF c
 
+/-- a range bound whose value fits the integer type (`u32::MAX` / `u64::MAX`) -/
+def Bound.le (maxV : Nat) : Bound → Prop
+  | .incl n => n ≤ maxV
+  | .excl n => n ≤ maxV
+  | .unb => True
+
 def Bitmap.keys (b : Bitmap) : List Nat := b.map Container.key
 
 end Roaring
